@@ -491,6 +491,20 @@ fn grid_cases(envir: &Envir) -> Vec<Case> {
     ] {
         v.push(Case { e: E::Sym(text.to_string()), text: text.to_string(), exp, family: format!("literal/{}", crate::gen::spell::radix_name(text)) });
     }
+    // a character literal stands for its code, whatever the character: controls, blanks of every kind, wide ones
+    let specials = [0x1680u32, 0x180e, 0x2000, 0x2001, 0x2009, 0x200a, 0x200b, 0x2028, 0x2029, 0x202f, 0x205f, 0x3000, 0xfeff, 0xfffd, 0xffff, 0x10000, 0x1f600, 0x10ffff];
+    for cp in (1u32..0x250).chain(specials) {
+        let c = match char::from_u32(cp) {
+            Some(c) if c != '\n' && c != '\r' && c != '\'' => c,
+            _ => continue,
+        };
+        let class = if cp < 0x20 || cp == 0x7f { "control" } else if c.is_whitespace() { "blank" } else if cp < 0x80 { "ascii" } else { "wide" };
+        v.push(Case { e: E::Sym(format!("'{}'", c)), text: format!("'{}'", c), exp: Expected::Value(cp as i64), family: format!("literal/char/{}", class) });
+        if class != "ascii" {
+            v.push(Case { e: E::Sym(format!("'{}'", c)), text: format!("'{}' + 1", c), exp: Expected::Value(cp as i64 + 1), family: format!("literal/char/{}", class) });
+            v.push(Case { e: E::Sym(format!("'{}'", c)), text: format!("low('{}')<' '", c), exp: Expected::Value(((cp & 0xff) < 32) as i64), family: format!("literal/char/{}", class) });
+        }
+    }
     v
 }
 
